@@ -28,7 +28,7 @@ from ..core import Ctx, key_of
 from ..dep import data, full
 from ..model import AnchorMissing, Inconclusive, dotted, norm, own_nodes
 from ..order import interval_profile, matches, order_table
-from .common import facts_of, key_of_text, returns
+from .common import facts_of, heap_writes, key_of_text, returns
 
 META = {
     "level": "other",
@@ -231,6 +231,17 @@ def run(ctx: Ctx):
         atoms = full(ctx.dep.summary(fn).ret)
         if fn is avail:
             atoms = ctx.dep.close_heap(atoms) if "call:onShift" not in atoms else atoms
+            if "call:onShift" not in atoms:
+                # available() may rely on the slot table alone: initScoreboard writes a blocking marker (an int) into every slot for
+                # which onShift() is false, and available() refuses int entries (R02.2 / R02.9 check that guard); the calendar inputs
+                # then reach the answer through the table
+                sb_w = set()
+                for a_, _n, _t in heap_writes(ctx, initsb, "scoreboard"):
+                    sb_w |= full(a_)
+                marker_guard = any(isinstance(c_, ast.Call) and norm(c_.func) == "isinstance" and "scoreboard" in norm(c_.args[0]) and norm(c_.args[1]) == "int"
+                                   for c_ in own_nodes(avail) if isinstance(c_, ast.Call) and len(c_.args) == 2)
+                if "call:onShift" in sb_w and marker_guard:
+                    atoms = atoms | full(ctx.dep.summary(onshift).ret) | {"call:onShift"}
         for a, what in need:
             ok = a in atoms
             ctx.ob("R02.1", f"{fn.qual} depends on {what}", fn, ok,
@@ -259,7 +270,9 @@ def run(ctx: Ctx):
             cnt += 1
             node = g.node_of(r)
             cl = facts.holds(node, lambda t, p: (p and t == f"self.onShift({slotp})") or
-                             (p and t == f"self.scoreboard[{slotp}] is None"))
+                             (p and t == f"self.scoreboard[{slotp}] is None") or
+                             # every off-shift slot carries an int marker (initScoreboard): "not a marker" implies on shift
+                             (p is False and t == f"isinstance(self.scoreboard[{slotp}], int)"))
             ctx.ob("R02.2", f"{avail.qual}: return True", (avail, r), cl is not None,
                    f"reached only under {sorted(t for t, _ in cl)}" if cl else
                    "available() can answer True on a path that never established that the slot is on shift",
